@@ -323,6 +323,8 @@ R.contract(
     "QuicPacketBuilder._end_packet#no_overrun",
     raises={"CryptoError": None},
     ensures=["self.g_ovr == old(self.g_ovr)"],
+    # prefix verification: the clause sits at the padding statement; what follows it is covered by the main contract
+    stop_at=["buf.push_bytes(bytes(padding_size))"],
     **dict(
         _END_COMMON,
         cuts=dict(
@@ -487,4 +489,20 @@ R.contract(
             "builder.g_mds == self._max_datagram_size",
         ]
     },
+)
+
+
+# ------------------------------------------------------------------------------------------------ anti-amplification limit placement (C13)
+# C13 sentence 3 at connection level: EVERY packet datagrams_to_send builds - handshake, application AND closing packets -
+# is started only after the statement that hands the builder what is left of the 3x budget of an unvalidated path.  (On the
+# pinned tree that statement sat on the data branch only: the close branch sent its packets, an Initial one padded to 1200
+# bytes, on top of an exhausted budget - candidate D3, tools/repro/c13_d3_close_ignores_amplification_limit.py; repaired in
+# /repo 3fdba23.)  Decided on the control-flow structure (engine/dominance.py).
+R.dominance(
+    "datagrams_to_send.limit_before_packets",
+    function="quic/connection.py::QuicConnection.datagrams_to_send",
+    after="ifstmt:not network_path.is_validated",
+    sites=["calls:start_packet", "calls:_write_handshake", "calls:_write_application", "calls:_write_connection_close_frame"],
+    expect={"calls:start_packet": 1, "calls:_write_handshake": 1, "calls:_write_application": 1, "calls:_write_connection_close_frame": 1},
+    prop=["C13"],
 )
